@@ -20,11 +20,33 @@ def is_name(n, name):
 def is_call_to(n, fname, nargs=None):
     return isinstance(n, ast.Call) and is_name(n.func, fname) and not n.keywords and (nargs is None or len(n.args) == nargs)
 
+LOG_NAMES = ('debug', 'info', 'warning', 'warn', 'error', 'print')
+
+def is_logging(s):
+    """a statement that only logs: debug(...), log.info(...), print(...) - it has no part in what the wrapper computes, provided
+    its arguments do not call anything themselves (f-strings, names, attributes, subscripts and constants only)"""
+    if not (isinstance(s, ast.Expr) and isinstance(s.value, ast.Call)):
+        return False
+    f = s.value.func
+    name = f.id if isinstance(f, ast.Name) else (f.attr if isinstance(f, ast.Attribute) else None)
+    if name not in LOG_NAMES:
+        return False
+    for a in list(s.value.args) + [k.value for k in s.value.keywords]:
+        for n in ast.walk(a):
+            if isinstance(n, (ast.Call, ast.Await, ast.Yield, ast.YieldFrom, ast.NamedExpr, ast.Lambda)):
+                # format(), str() and repr() of a name are harmless; anything else is not recognised
+                if isinstance(n, ast.Call) and isinstance(n.func, ast.Name) and n.func.id in ('str', 'repr', 'len', 'format') :
+                    continue
+                if isinstance(n, ast.Call) and isinstance(n.func, ast.Attribute) and n.func.attr == 'format':
+                    continue
+                return False
+    return True
+
 def strip_doc(body):
     body = list(body)
     if body and isinstance(body[0], ast.Expr) and isinstance(body[0].value, ast.Constant) and isinstance(body[0].value.value, str):
         body = body[1:]
-    return [s for s in body if not isinstance(s, ast.Pass)]
+    return [s for s in body if not isinstance(s, ast.Pass) and not is_logging(s)]
 
 def key_form(expr, where):
     # tuple(args)
